@@ -30,6 +30,8 @@ def to_pymbolic(t):
     if k == "var":
         return p.Variable(t[1])
     if k == "const":
+        if isinstance(t[1], list) and t[1] and t[1][0] == "complex":
+            return complex(t[1][1], t[1][2])
         return t[1]
     if k == "sum":
         return p.Sum(tuple(to_pymbolic(c) for c in t[1:]))
